@@ -5,10 +5,10 @@ from harness import sx
 
 N_QUICK, N_THOROUGH = 700, 20000
 RULE = ("kind=points (92%): 1..12 Cartesian points per case in all quadrants / octants, on the axes, on the +-z axis, at the origin, "
-        "with signed zeros, at scales 1e-6..1e6, for each of the 7 classes (Radial from 2-D and 3-D sources); bins: explicit "
+        "with signed zeros, at scales 1e-6..1e6 (and 1e160 / 1e-170, whose squares overflow / underflow), for each of the 7 classes (Radial from 2-D and 3-D sources); bins: explicit "
         "irregular radial / rho / z edges that leave some points outside, angular edges over the full or a partial range; every "
         "entry path is exercised on the same points: Class.transform (array and single), find_bin, find_bin(transformed=True), "
-        "fill, fill(transformed=True), fill_n, fill_n(transformed=True), the facade and the facade with transformed=True, and "
+        "fill, fill(transformed=True), fill_n, fill_n(transformed=True) (a third of the batches as columns=True), the facade and the facade with transformed=True, and "
         "every projection onto a proper subset of the axes. kind=wrongdim (8%): inputs of dimension 1..4 to transform / find_bin / "
         "fill / fill_n. non-trivial = >=3 points with >=1 inside the bins and >=1 on an axis or at the origin")
 MODELLED = ("the arithmetic of the transform (numpy hypot / arctan2 / %) is not re-implemented: the coordinates physt returns are "
@@ -44,7 +44,7 @@ def gen(rng, n, tier):
         name = rng.choice(CLASSES)
         cls = name.replace("3", "")
         dim = SRC.get(name, 3)
-        s = float(rng.choice([1e-6, 1e-3, 1, 1, 1, 10, 1e3, 1e6]))
+        s = float(rng.choice([1e-6, 1e-3, 1, 1, 1, 10, 1e3, 1e6] * 2 + [1e160, 1e-170]))      # squares of the last two leave the float range
         pts = [gen_point(rng, dim, s) for _ in range(rng.choice([1, 2, 3, 5, 8, 12]))]
         two_pi = 2 * math.pi
         def ang(full, top):
@@ -56,10 +56,11 @@ def gen(rng, n, tier):
                 "SphericalHistogram": [rad, ang(1, math.pi), ang(1, two_pi)], "SphericalSurfaceHistogram": [ang(1, math.pi), ang(1, two_pi)],
                 "CylindricalHistogram": [rad, ang(1, two_pi), zed], "CylindricalSurfaceHistogram": [ang(1, two_pi), zed]}[cls]
         other = rng.choice(["none", "float32", "list", "float32"])
+        if s > 1e30 or s < 1e-30: other = rng.choice(["none", "list"])      # outside the float32 range
         if other == "float32":
             import struct
             pts = [([Fr(struct.unpack("f", struct.pack("f", float(x)))[0]) for x in p], z) for p, z in pts]
-        yield [["bucket", "points/" + name], ["kind", "points"], ["cls", cls], ["points", [p for p, z in pts]], ["negzero", [z for p, z in pts]], ["bins", bins], ["other_input", other]]
+        yield [["bucket", "points/" + name], ["kind", "points"], ["cls", cls], ["points", [p for p, z in pts]], ["negzero", [z for p, z in pts]], ["bins", bins], ["other_input", other], ["columns", rng.choice(["T", "F", "F"])]]
 
 def _pts(d):
     import numpy as np
@@ -139,8 +140,9 @@ def impl(case):
         def flat(h): return [float(x) for x in np.asarray(h.frequencies, dtype=float).ravel()]
         h = h0.copy(); out.append(["fill_ret", [_enc(h.fill(p)) for p in pts]]); out.append(["freq_fill", flat(h)])
         h = h0.copy(); out.append(["fill_t_ret", [_enc(h.fill(tval(c), transformed=True)) for c in co]]); out.append(["freq_fill_t", flat(h)])
-        h = h0.copy(); h.fill_n(pts); out.append(["freq_fill_n", flat(h)])
-        h = h0.copy(); h.fill_n(co[:, 0] if one_d else co, transformed=True); out.append(["freq_fill_n_t", flat(h)])
+        cols = d.get("columns", "F") == "T" and len(h0._binnings) > 1      # the batch handed over as one array per coordinate
+        h = h0.copy(); (h.fill_n(pts.T, columns=True) if cols else h.fill_n(pts)); out.append(["freq_fill_n", flat(h)])
+        h = h0.copy(); (h.fill_n(co.T, transformed=True, columns=True) if cols else h.fill_n(co[:, 0] if one_d else co, transformed=True)); out.append(["freq_fill_n_t", flat(h)])
         out.append(["freq_facade", flat(fac)])
         ft = _facade(cls, (co[:, 0] if one_d else co), bins, True); out.append(["freq_facade_t", flat(ft)])
         proj = []
